@@ -14,10 +14,13 @@ Theorems (all over Model/Routing.lean applied to the tables regenerated from /re
   cached_filter_exact       … with the cache's sortedness established by update (normalize_sorted), no side condition
   update_follows            after update(m) the layout and the connection groups are those of m
   conns_invariant           … along every history of updates
+  parts_cover_splitters     every Splitter type of the source has a split model (regenerated table, decide)
+  split_resources_partition / split_resources_target / split_brokers_cover   DescribeConfigs and ListGroups parts: every resource / broker exactly once, at the right broker
 -/
 import KafkaVerif.Model.Routing
 import KafkaVerif.Lemmas.Routing
 import KafkaVerif.Model.Discover
+import KafkaVerif.Model.Split
 
 namespace KV.Props.C12
 open KV.Routing KV.Gen.Routing
@@ -375,5 +378,68 @@ example : (run discoverExits {} [.tick, .answer ⟨0, [⟨1, "b1", 9092, ""⟩],
 
 /-- with a guard on the per-request context (the shape of seeded change C12-m3) one timeout ends the loop -/
 example : (run [.errIsOtherCtx, .poolDone] {} [.tick, .timeout]).map (·.alive) = some false := by decide
+
+/-! ## split requests (transport.go roundTrip, `case protocol.Splitter`) -/
+
+section splits
+open KV.Split
+
+/-- every request type that implements Splitter in the source has a split model (nothing is left untranslated),
+and no other type is split -/
+theorem parts_cover_splitters :
+    ∀ a ∈ apis, (parts roundTripCases a Cluster.zero [] {}).isSome = a.split := by decide
+
+/-- DescribeConfigs: the parts carry every resource exactly once — each broker resource alone in its own part
+(in request order), all other resources together in one last part -/
+theorem split_resources_partition (rs : List (Int × String × Option Int)) :
+    (splitResources rs).flatMap (·.resources) = rs.filter isBrokerResource ++ rs.filter (fun r => !isBrokerResource r) ∧
+    ((splitResources rs).flatMap (·.resources)).Perm rs ∧
+    (∀ p ∈ splitResources rs, (∃ r, isBrokerResource r = true ∧ p.resources = [r]) ∨
+      (∀ r ∈ p.resources, isBrokerResource r = false)) := by
+  have h1 : (splitResources rs).flatMap (·.resources)
+      = rs.filter isBrokerResource ++ rs.filter (fun r => !isBrokerResource r) := by
+    unfold splitResources
+    rw [List.flatMap_append]
+    congr 1
+    · induction rs.filter isBrokerResource with
+      | nil => rfl
+      | cons x xs ih => simp [List.flatMap_cons, ih]
+    · split
+      · next h => simp [List.isEmpty_iff.mp h]
+      · simp
+  refine ⟨h1, h1 ▸ List.filter_append_perm _ _, ?_⟩
+  intro p hp
+  unfold splitResources at hp
+  rcases List.mem_append.mp hp with hp | hp
+  · obtain ⟨r, hr, rfl⟩ := List.mem_map.mp hp
+    exact Or.inl ⟨r, (List.mem_filter.mp hr).2, rfl⟩
+  · right
+    split at hp
+    · cases hp
+    · rcases List.mem_singleton.mp hp with rfl
+      intro r hr
+      simpa using (List.mem_filter.mp hr).2
+
+/-- a broker-resource part is sent to the broker it names (when that broker is listed) -/
+theorem split_resources_target (c : Cluster) (id : Int) (b : Broker) (hb : c.brokers.lookup id = some b) :
+    resourceBroker c [(4, some id)] = .ok b.id := by
+  simp [resourceBroker, lookupD, hb]
+
+/-- ListGroups: one part per broker of the layout; with a well-formed layout and the pool invariant every part
+reaches its broker at the metadata's address — each broker is asked exactly once -/
+theorem split_brokers_cover (a : ApiMethods) (c : Cluster) (conns : List (Int × Addr))
+    (ha : firstCase sendRequestCases a = some .broker) (hf : a.broker = .field)
+    (hwf : BrokersWF c) (hinv : ∀ id, conns.lookup id = (c.brokers.lookup id).map Broker.addr) :
+    (splitBrokers c).length = c.brokers.length ∧
+    ∀ k b, c.brokers.lookup k = some b →
+      route sendRequestCases a c conns { field := b.id } = .broker k b.addr := by
+  refine ⟨by simp [splitBrokers], ?_⟩
+  intro k b hkb
+  obtain ⟨hid, hk0⟩ := hwf k b hkb
+  unfold route
+  simp only [ha, brokerMethod, hf, KV.Routing.ofExcept, sendTarget, hid, lookupD, hkb, Option.getD]
+  simp [hk0, hinv k, hkb]
+
+end splits
 
 end KV.Props.C12
